@@ -41,6 +41,33 @@ def workloads(r, n, nmax):
     return txt, ids
 
 
+def exact_heavy(r, k0, count, nmax):
+    """exact workloads whose optimal vertex is A_B^{-1} b with a large non-dyadic denominator: dense integer rows, wide
+    bounds.  These reach the rational reconstruction and factorization code (shared workspace there would be a race)."""
+    from fractions import Fraction
+    txt, ids = "", []
+    for k in range(count):
+        n = r.randint(4, max(4, nmax))
+        m = r.randint(n - 1, n + 1)
+        cols = [(Fraction(r.randint(-9, 9)), Fraction(-r.randint(20, 60)), Fraction(r.randint(20, 60))) for _ in range(n)]
+        rows = []
+        for i in range(m):
+            co = {j: Fraction(r.choice([-9, -7, -5, -3, -2, 2, 3, 5, 7, 9, 11, 13])) for j in range(n) if r.random() < 0.8}
+            if not co:
+                co = {r.randrange(n): Fraction(3)}
+            a = Fraction(r.randint(-15, 15))
+            t = r.randrange(3)
+            rows.append((a, co, a) if t == 0 else ((None, co, a + 7) if t == 1 else (a - 7, co, None)))
+        p = lpgen.LP(r.random() < 0.5, Fraction(0), cols, rows, family="exact-heavy")
+        cfg = {"simplifier": r.choice([0, 1]), "scaler": r.choice([0, 2])}
+        if r.random() < 0.3:
+            cfg["precision_boosting"] = 1
+        wid = "x%d" % (k0 + k)
+        txt += p.text(wid) + "\nWORK %s exact %s\n" % (wid, lpgen.cfg_text(cfg))
+        ids.append((wid, True, cfg))
+    return txt, ids
+
+
 def tsan_reports(err):
     reps = []
     for block in err.split("=================="):
@@ -67,6 +94,9 @@ def main():
     nw, nmax = (24, 9) if ck.tier == "quick" else (200, 20)
     threads = [2, 8] if ck.tier == "quick" else [2, 4, 8, 16]
     txt, ids = workloads(r, nw, nmax)
+    tx, ix = exact_heavy(r, 0, 10 if ck.tier == "quick" else 60, 7 if ck.tier == "quick" else 10)
+    txt += tx
+    ids += ix
     for nt in threads:
         txt += "THREADS %d\n" % nt
     # 1. result comparison without sanitizer
@@ -86,7 +116,7 @@ def main():
     # 2. happens-before race detection
     try:
         tsan = vlib.build_harness(**TSAN)
-        env = dict(os.environ, TSAN_OPTIONS="halt_on_error=0 report_signal_unsafe=0 history_size=4 exitcode=0")
+        env = dict(os.environ, TSAN_OPTIONS="halt_on_error=0 report_signal_unsafe=0 history_size=7 exitcode=0")
         d = os.path.join(vlib.BUILD, "run")
         f = os.path.join(d, "C18.tsan.%d.cases" % os.getpid())
         open(f, "w").write(txt)
@@ -111,7 +141,7 @@ def main():
     ck.cov["explanation"] = ("partial: (1) proved on every run: every object with static storage duration defined by the compiled library (inventory regenerated from the "
                              "object files of the current tree: %d objects) is const, thread_local or written only during static/guarded initialisation; for steps that "
                              "write only cells of their own object, every interleaving of any number of threads shows each thread what it sees when running alone "
-                             "(model theorem); (2) explored: %d workloads (floating-point with sampled scaler/simplifier/pricer..., exact with and without precision "
+                             "(model theorem); (2) explored: %d workloads plus a group of exact workloads with non-dyadic optimal vertices (floating-point with sampled scaler/simplifier/pricer..., exact with and without precision "
                              "boosting) distributed over %s threads, result digests compared with the sequential run, and the same under ThreadSanitizer. Races inside "
                              "GMP/MPFR/Boost, the memory model and the allocator cannot be exhibited by the model." % (info["objects"], nw, threads))
     ck.cov["rule"] = "a case is (workload, thread count); each workload = create, set parameters, load LP, optimize, query, modify objective, optimize, destroy"
